@@ -201,7 +201,7 @@ Definition ex_ops : list cop :=
 
 Example ex_history_valid :
   @EnvStep.hist_valid cval ctype c_as_env CEnv c_can_addr c_ext_get c_ext_type c_basic true [] ex_ops.
-Proof. cbn. repeat split. Qed.
+Proof. vm_compute. repeat split. Qed.
 
 Example ex_history_outputs :
   snd (@EnvModel.run cval ctype c_as_env CEnv c_can_addr c_ext_get c_ext_type c_basic true [] ex_ops)
